@@ -90,18 +90,19 @@ def r1_r2_r4(cx, f):
     # R4: whatever goes into the request (Request::create) is taken out of the call object with Option::take(); everything that
     #     touches the connection's stream happens behind the Some edge of every such take
     from vlib.cfg import ref_base
-    creates = [t for t in body.calls("Request::<'a>::create", "=create") if t.callee.name == "create" and "Request" in t.callee.path]
+    builders = cc.request_builders(body)
+    creates = [b[0] for b in builders]
     already = cc.err_variant_blocks(body, "MethodCalledAlready")
     why = []
     req_takes = []
     sl_take = Slice(body, du, extra_pass=("=to_value", "=map_err", "=into", "=from"))
-    for c in creates:
-        for a in c.args:
+    for _site, m_op, p_op in builders:
+        for a in (m_op, p_op):
             for k, o in sl_take.origins(a):
                 if k == "call" and o.callee.name == "take" and "Option" in o.callee.path and o.args and o.args[0].place is not None and ref_base(du, o.args[0].place.l)[0] == 1 and o not in req_takes:
                     req_takes.append(o)
     if len(creates) != 1 or not req_takes or not already:
-        why.append("the request is not built from values consumed with take() from the call object, or MethodCalledAlready is never returned (Request::create calls %d, takes %d)" % (len(creates), len(req_takes)))
+        why.append("the request is not built from values consumed with take() from the call object, or MethodCalledAlready is never returned (places building the Request %d, takes %d)" % (len(creates), len(req_takes)))
     else:
         some_edges = []; per_take = {id(o): [] for o in req_takes}
         for b in body.blocks:
